@@ -1,3 +1,4 @@
+pub mod c15;
 pub mod c16;
 
 #[derive(Clone, Debug)]
